@@ -105,7 +105,6 @@ class Number {
 inline Number parseNumber(const char* s) {
   using traits = FloatTraits<JsonFloat>;
   using mantissa_t = largest_type<traits::mantissa_type, JsonUInt>;
-  using exponent_t = traits::exponent_type;
 
   ARDUINOJSON_ASSERT(s != 0);
 
@@ -136,7 +135,7 @@ inline Number parseNumber(const char* s) {
     return Number();
 
   mantissa_t mantissa = 0;
-  exponent_t exponent_offset = 0;
+  int exponent_offset = 0;
   const mantissa_t maxUint = JsonUInt(-1);
 
   while (isdigit(*s)) {
@@ -213,6 +212,13 @@ inline Number parseNumber(const char* s) {
   // we should be at the end of the string, otherwise it's an error
   if (*s != '\0')
     return Number();
+
+  // stay within the tables of powers of ten used by make_float()
+  // (the mantissa has at most 17 digits)
+  if (exponent > traits::exponent_max)
+    return Number(is_negative ? -traits::inf() : traits::inf());
+  if (exponent < -(traits::exponent_max + 17))
+    return Number(is_negative ? -0.0f : 0.0f);
 
 #if ARDUINOJSON_USE_DOUBLE
   bool isDouble = exponent < -FloatTraits<float>::exponent_max ||
